@@ -76,8 +76,11 @@ class VLoop(base_events.BaseEventLoop):
         h = None
 
     def live_timers(self):
-        """Scheduled, not cancelled timer handles."""
-        return [h for h in self._scheduled if not h._cancelled]
+        """Timer handles that will still run: scheduled ones and those already moved to the ready
+        queue of the current iteration (due, callback not run yet); cancelled ones excluded."""
+        import asyncio
+        due = [h for h in self._ready if isinstance(h, asyncio.TimerHandle) and not h._cancelled]
+        return due + [h for h in self._scheduled if not h._cancelled]
 
 
 def run(coro, start=0.0, loop_out=None):
